@@ -5,11 +5,14 @@ import Proofs.C13Conc
 
 Model: `Model/Executor.lean` (`queryExecutor.do` as a function of the statement kind handed to it — `*Query`
 or `*Batch` (logged / unlogged / counter), observed or not —, the host iterator's output, per-host
-availability, the per-request outcomes, the retry policy's decision functions and the statement's attempt
+availability AS IT CHANGES during the execution (`us k h`: host `h` usable when `k` requests have been sent —
+an arbitrary function, so every sequence of hosts going down, losing their pool and coming back between
+attempts is covered), the per-request outcomes, the retry policy's decision functions and the statement's attempt
 counter and consistency level, which are state of the model; `executeQuery`'s choice of how many executions
 to start) and `Model/ExecutorConc.lean` (concurrent executions sharing the attempt counter and the host
-iterator). All theorems: every statement kind, every host sequence, every outcome sequence, every starting
-value of the counter, every policy (arbitrary decision functions unless stated), every schedule.
+iterator). All theorems: every statement kind, every host sequence, every usability function, every outcome
+sequence, every starting value of the counter, every policy (arbitrary decision functions unless stated),
+every schedule.
 -/
 namespace C13
 open Executor
